@@ -11,6 +11,14 @@ import random
 import sys
 
 
+GEN_SRC = (
+    "class Klass{0}(object):\n    \"\"\"\n    The zq class\n    \"\"\"\n\n    def __init__(self, a=5, b='x'):\n        \"\"\"\n        Init\n\n"
+    "        :param a: the a\n\n        :param b: the b\n        \"\"\"\n        self.a = a\n\n"
+    "def func{0}(q=1):\n    \"\"\"\n    The zq func\n\n    :param q: the q\n    \"\"\"\n    return q\n\n"
+    "input_map = {{'Klass{0}': Klass{0}, 'func{0}': func{0}}}\n"
+)
+
+
 def build(seed, n):
     from dtverif.gen_ir import IRGen, ir_jsonable, knobs
     from dtverif.gen_py import gen_class_with_init, gen_function
@@ -77,6 +85,37 @@ def build(seed, n):
                     shutil.rmtree(d, ignore_errors=True)
 
             convs.append(("live.function->class:{}".format(i), live_fn))
+        if i % 4 == 1:
+
+            def gen_conv(i=i):
+                # `gen` on a two-entry mapping of live objects, output read back as text
+                import contextlib
+                import io
+                import os
+                import shutil
+                import tempfile
+
+                from doctrans.gen import gen
+
+                d = tempfile.mkdtemp(prefix="dtverif-c12-gen-")
+                modname = "zqgen_{}".format(i)
+                try:
+                    with open(os.path.join(d, modname + ".py"), "w") as f:
+                        f.write(GEN_SRC.format(i))
+                    out = os.path.join(d, "out.py")
+                    sys.path.insert(0, d)
+                    try:
+                        with contextlib.redirect_stdout(io.StringIO()):
+                            gen(name_tpl="{name}Config", input_mapping=modname + ".input_map", type_=("class", "function")[i % 2], output_filename=out)
+                    finally:
+                        sys.path.remove(d)
+                        sys.modules.pop(modname, None)
+                    with open(out) as f:
+                        return f.read()
+                finally:
+                    shutil.rmtree(d, ignore_errors=True)
+
+            convs.append(("gen:{}".format(i), gen_conv))
         if i % 3 == 0:
             c = gen_class_with_init(rng)
 
